@@ -883,7 +883,7 @@ impl Engine for C13 {
         "exploration"
     }
     fn rule(&self) -> String {
-        "Seeded histories: a publication calendar (as for C12), then 1-8 runs; run r is a fresh simulated process on today_r = today_{r-1} + gap (gap weighted over 0,1,2,3,4-10,11-40,~365 days), with a published-today flag (monotone within a day), force flag (p=0.15), direct or application path (p=1/3; rows spread over 1-3 CSV files sharing one loader, row variants: USD without rate, USD with explicit rate, CAD trade with USD commission, USD trade + USD commission), and 1-8 look-up dates drawn relative to today (-9..+2), to the predicted frontier of each cached year (-3..+9), to year ends, to earlier look-ups, in ascending/descending/generated order; cache = real CsvRatesCache over SimFs (2/3) or real InMemoryRatesCache carried across processes (1/3); legal short reads/writes as a knob. Two of three histories are fault-free; every third (index % 3 == 2) injects network faults (error, HTML body, truncated JSON, empty body; p=1/4 per request) and, in a quarter of its runs, one file-system fault kind (EACCES on open-for-write/mkdir/open-for-read, ENOSPC after N bytes, EIO on rename/fsync/read). One run in eight of a faulty history is killed at a seeded point of its journalled file-system activity (only that prefix survives, the last write possibly cut) and the history goes on; the run after a kill first asks for the last dates of the surviving cache files. In a quarter of the histories 'today' comes from the simulated system clock and TZ through the real today_local(). Oracle: each look-up equals the same look-up by the real code with no cache (fresh process, empty cache, forced) on the same snapshot; an Err is tolerated only for a look-up during or after which an injected network fault fired in the same run (never in a later run); successful downloads per (run, year) <= 1; when not forced, no request for a year whose needed dates (reference-model touched set) were all in the persisted cache at the start of the run, nor for a year that an earlier run downloaded successfully (cache write undisturbed) on a day after all the needed dates. evaluations = histories; distinct_nontrivial = distinct histories in which some run started from a non-empty persisted cache.".to_string()
+        "Seeded histories: a publication calendar (as for C12), then 1-8 runs; run r is a fresh simulated process on today_r = today_{r-1} + gap (gap weighted over 0,1,2,3,4-10,11-40,~365 days), with a published-today flag (monotone within a day), force flag (p=0.15), direct or application path (p=1/3; rows spread over 1-3 CSV files sharing one loader, row variants: USD without rate, USD with explicit rate, CAD trade with USD commission, USD trade + USD commission), and 1-8 look-up dates drawn relative to today (-9..+2), to the predicted frontier of each cached year (-3..+9), to year ends, to earlier look-ups, in ascending/descending/generated order; cache = real CsvRatesCache over SimFs (2/3) or real InMemoryRatesCache carried across processes (1/3); legal short reads/writes as a knob; one run in four happens inside the same long-lived process (same thread) as the run before it, so statics and thread-locals survive from run to run; in one history in eight the cache directory is a symbolic link. Two of three histories are fault-free; every third (index % 3 == 2) injects network faults (error, HTML body, truncated JSON, empty body; p=1/4 per request) and, in a quarter of its runs, one file-system fault kind (EACCES on open-for-write/mkdir/open-for-read, ENOSPC after N bytes, EIO on rename/fsync/read). One run in eight of a faulty history is killed at a seeded point of its journalled file-system activity (only that prefix survives, the last write possibly cut) and the history goes on; the run after a kill first asks for the last dates of the surviving cache files. In a quarter of the histories 'today' comes from the simulated system clock and TZ through the real today_local(). Oracle: each look-up equals the same look-up by the real code with no cache (fresh process, empty cache, forced) on the same snapshot; an Err is tolerated only for a look-up during or after which an injected network fault fired in the same run (never in a later run); successful downloads per (run, year) <= 1; when not forced, no request for a year whose needed dates (reference-model touched set) were all in the persisted cache at the start of the run, nor for a year that an earlier run downloaded successfully (cache write undisturbed) on a day after all the needed dates. evaluations = histories; distinct_nontrivial = distinct histories in which some run started from a non-empty persisted cache.".to_string()
     }
     fn state_measure(&self) -> String {
         "distinct (look-up date minus cached-year frontier bucket, date minus today bucket, published flag, force, year-loaded-from-cache-earlier-in-run, outcome class) tuples over direct look-ups".to_string()
